@@ -4,4 +4,6 @@
 f11_0:
   ret
   call f30_0
+  mov wvsv0@GOTPCREL(%rip),%rax
+  mov wvsv0(%rip),%rax
   ret
